@@ -90,6 +90,12 @@ def ncf2lateral_boundary(ncffile, outpath):
     time_hdr['etime'] = time + 1.
     time_hdr['iedate'] += (time_hdr['etime'] // 24).astype('i')
     time_hdr['etime'] -= (time_hdr['etime'] // 24) * 24
+    # the day after the last day of a year is day 1 of the next year
+    yyyy = ncffile.variables['TFLAG'][:, 0, 0] // 1000
+    ylen = 365 + ((yyyy % 4 == 0) & ((yyyy % 100 != 0) | (yyyy % 400 == 0)))
+    over = (time_hdr['iedate'] % 1000) > ylen
+    time_hdr['iedate'][over] = (
+        (time_hdr['iedate'][over] // 1000 + 1) % 100 * 1000 + 1)
     emiss_hdr['ibdate'] = time_hdr['ibdate'][0]
     emiss_hdr['btime'] = time_hdr['btime'][0]
     emiss_hdr['iedate'] = time_hdr['iedate'][-1]
